@@ -141,6 +141,41 @@ def goldens(rng):
     out.append(("ip4_icmp_redirect_long", ether(m1, m2, 0x0800, ipv4(a4, b4, 1, icmp4_err(5, 1, bytes([10, 1, 2, 3]), q4)))))
     out.append(("ip4_icmp_srcquench_long", ether(m1, m2, 0x0800, ipv4(a4, b4, 1, icmp4_err(4, 0, bytes([0, 7, 0, 9]), q4)))))
     out.append(("ip4_icmp_fragneeded_mtu_long", ether(m1, m2, 0x0800, ipv4(a4, b4, 1, icmp4_err(3, 4, struct.pack("!HH", 0, 1400), q4)))))
+    # TCP segments with payloads longer than any option could be (a length octet that lies then still points inside the buffer),
+    # with an empty, a typical and a full (40 octets) option area
+    topts = {"none": b"", "mss_ws": bytes([2, 4, 5, 0xb4, 1, 3, 3, 7]), "ts_sack": bytes([8, 10, 0, 0, 0, 1, 0, 0, 0, 2, 1, 1, 5, 10, 0, 0, 0, 9, 0, 0, 0, 19]),
+             "full40": bytes([8, 10, 0, 0, 0, 1, 0, 0, 0, 2, 1, 1, 5, 26] + [0, 0, 1, 0, 0, 0, 1, 9] * 3)}
+    for name, o in topts.items():
+        p = pay(rng.randrange(64, 200))
+        out.append(("ip4_tcp_long_%s" % name, ether(m1, m2, 0x0800, ipv4(a4, b4, 6, lambda ps, p=p, o=o: tcp(80, 4001, 7, 9, 0x18, 512, o, p, ps)))))
+        out.append(("ip6_tcp_long_%s" % name, ether(m1, m2, 0x86dd, ipv6(a6, b6, [], 6, lambda ps, p=p, o=o: tcp(443, 4002, 0xfffffff0, 9, 0x10, 1024, o, p, ps)))))
+    # every ICMP message format (RFC 792, 950, 1256): fixed part + trailing data of several lengths
+    def icmp_msg(typ, code, rest, body):
+        h = struct.pack("!BBH", typ, code, 0) + rest
+        return h[:2] + struct.pack("!H", csum(h + body)) + rest + body
+    ts = struct.pack("!III", 0x01020304, 0x05060708, 0x090a0b0c)
+    for trail in (0, 1, 12, 40):
+        for typ, nm in ((13, "tsreq"), (14, "tsrep")):
+            out.append(("ip4_icmp_%s_t%d" % (nm, trail), ether(m1, m2, 0x0800, ipv4(a4, b4, 1, icmp_msg(typ, 0, struct.pack("!HH", 0x1111, 7), ts + pay(trail))))))
+        for typ, nm in ((17, "maskreq"), (18, "maskrep")):
+            out.append(("ip4_icmp_%s_t%d" % (nm, trail), ether(m1, m2, 0x0800, ipv4(a4, b4, 1, icmp_msg(typ, 0, struct.pack("!HH", 0x2222, 8), bytes([255, 255, 240, 0]) + pay(trail))))))
+        for typ, nm in ((15, "inforeq"), (16, "inforep"), (0, "echorep")):
+            out.append(("ip4_icmp_%s_t%d" % (nm, trail), ether(m1, m2, 0x0800, ipv4(a4, b4, 1, icmp_msg(typ, 0, struct.pack("!HH", 0x3333, 9), pay(trail))))))
+    out.append(("ip4_icmp_rtrsol", ether(m1, m2, 0x0800, ipv4(a4, b4, 1, icmp_msg(10, 0, bytes(4), b"")))))
+    # ICMPv6 informational and neighbour-discovery formats (RFC 4443, 4861, 2710) with options / trailing data
+    def icmp6_msg(typ, code, body, pseudo):
+        h = struct.pack("!BBH", typ, code, 0)
+        c = csum(pseudo(58, len(h) + len(body)) + h + body)
+        return h[:2] + struct.pack("!H", c) + body
+    lla = bytes([1, 1]) + m1                    # source link-layer address option
+    tla = bytes([2, 1]) + m2
+    mtu = bytes([5, 1, 0, 0]) + struct.pack("!I", 1500)
+    nd = {"rs": (133, bytes(4) + lla), "rs_plain": (133, bytes(4)), "ra": (134, bytes([64, 0xc0]) + struct.pack("!HII", 1800, 30000, 1000) + lla + mtu),
+          "ns": (135, bytes(4) + b6 + lla), "ns_plain": (135, bytes(4) + b6), "na": (136, bytes([0x60, 0, 0, 0]) + b6 + tla), "na_plain": (136, bytes([0xe0, 0, 0, 0]) + b6),
+          "redirect": (137, bytes(4) + b6 + a6 + tla), "mld_query": (130, struct.pack("!HH", 1000, 0) + bytes(16)), "mld_report": (131, struct.pack("!HH", 0, 0) + bytes([0xff, 2] + [0] * 13 + [0x16])),
+          "mld_done": (132, struct.pack("!HH", 0, 0) + bytes([0xff, 2] + [0] * 13 + [0x16])), "echorep": (129, struct.pack("!HH", 5, 6) + pay(20))}
+    for nm, (typ, body) in nd.items():
+        out.append(("ip6_icmp6_%s" % nm, ether(m1, m2, 0x86dd, ipv6(a6, b6, [], 58, lambda ps, typ=typ, body=body: icmp6_msg(typ, 0, body, ps), hop=255))))
     # short DNS responses whose LAST record is of a fixed-size type (A, AAAA) or ends in a name (MX, NS): lies on the record
     # length then make the decoder want more than the message holds
     q = bytes([1, 97, 2, 98, 99, 0]) + struct.pack("!HH", 1, 1)
